@@ -12,7 +12,7 @@ fn slave_port<'a>(state: &'a DepthCell, remote: PortIdentity) -> RPort<'a> {
 }
 
 // @harness c03_sync_correction_exceeds_receive_time
-// @props C03 C09:thorough
+// @props C03:quick C09:quick
 // @tier quick
 // @variant lists2
 // @timeout 1200
@@ -36,7 +36,7 @@ fn c03_sync_correction_exceeds_receive_time() {
 }
 
 // @harness c03_follow_up_negative_correction_exceeds_timestamp
-// @props C03 C09:thorough
+// @props C03:quick C09:quick
 // @tier quick
 // @variant lists2
 // @timeout 1200
@@ -60,7 +60,7 @@ fn c03_follow_up_negative_correction_exceeds_timestamp() {
 }
 
 // @harness c12_faulty_recovery_requests_receipt_timer
-// @props C12 C14:thorough
+// @props C12:quick C14:quick
 // @tier quick
 // @variant lists2
 // @stubbing yes
